@@ -191,7 +191,113 @@ impl<C: Suite> Model for MAggX<C> {
     }
 }
 
+// ---- large honest aggregates (C03): bytes and decisions against the reference -------------------------------
+
+#[derive(Copy, Clone, Debug, PartialEq, Eq, Hash, Serialize, Deserialize)]
+pub struct LargeSt {
+    s: Scheme,
+    n: usize,
+    /// 0 = the honest aggregate; 1 = the aggregate without the first 64 parts, against the full list
+    variant: u8,
+}
+
+pub struct MAggLarge<C: Suite> {
+    prop: &'static str,
+    ns: Vec<usize>,
+    sks: Vec<SecretKey<C>>,
+    _c: PhantomData<C>,
+}
+
+impl<C: Suite> MAggLarge<C> {
+    pub fn new(prop: &'static str, tier: Tier) -> Self {
+        // block sizes of batched pairing code (16, 32, 64, 128) and the 8 bit boundary
+        let ns: Vec<usize> = if tier.thorough() { vec![16, 17, 32, 33, 64, 65, 127, 128, 129, 192, 193, 255, 256, 257, 300] } else { vec![64, 65, 127, 128, 129, 256, 257] };
+        let nk = *ns.iter().max().unwrap();
+        let sks = (0..nk).map(|i| SecretKey::<C>::from_hash(format!("aggx-large-{}", i))).collect();
+        MAggLarge { prop, ns, sks, _c: PhantomData }
+    }
+}
+
+impl<C: Suite> Model for MAggLarge<C> {
+    type State = Option<LargeSt>;
+    type Action = LargeSt;
+    fn name(&self) -> String {
+        format!("{}-aggregate-large/{}", self.prop.to_lowercase(), C::G)
+    }
+    fn init(&self) -> Vec<Option<LargeSt>> {
+        vec![None]
+    }
+    fn actions(&self, st: &Option<LargeSt>) -> Vec<LargeSt> {
+        if st.is_some() {
+            return vec![];
+        }
+        let mut v = vec![];
+        for s in SCHEMES {
+            for &n in &self.ns {
+                v.push(LargeSt { s, n, variant: 0 });
+                if n >= 66 {
+                    v.push(LargeSt { s, n, variant: 1 });
+                }
+            }
+        }
+        v
+    }
+    fn step(&self, _s: &Option<LargeSt>, a: &LargeSt) -> Option<Option<LargeSt>> {
+        Some(Some(*a))
+    }
+    fn describe(&self, st: &Option<LargeSt>) -> String {
+        match st {
+            None => "root".into(),
+            Some(s) => format!("{} {} aggregate of {} signers over distinct messages{}", C::G, s.s.name(), s.n, if s.variant == 1 { ", the first 64 parts left out, verified against the full list" } else { "" }),
+        }
+    }
+    fn required_outcomes(&self) -> Vec<String> {
+        vec!["large:accept".into(), "large:incomplete-reject".into()]
+    }
+    fn check(&self, st: &Option<LargeSt>, o: &mut Obs) {
+        let Some(st) = st else { return };
+        o.nontrivial = true;
+        let (p, g, sn) = (self.prop, C::G, st.s.name());
+        let msgs: Vec<Vec<u8>> = (0..st.n).map(|i| format!("large aggregate message {}", i).into_bytes()).collect();
+        let sigs: Vec<Signature<C>> = (0..st.n).map(|i| self.sks[i].sign(lib_scheme(st.s), &msgs[i]).expect("honest sign")).collect();
+        let list: Vec<(PublicKey<C>, Vec<u8>)> = (0..st.n).map(|i| (self.sks[i].public_key(), msgs[i].clone())).collect();
+        let parts = if st.variant == 1 { &sigs[64..] } else { &sigs[..] };
+        let agg = match guard(|| AggregateSignature::<C>::from_signatures(parts)) {
+            Ok(Ok(a)) => a,
+            r => {
+                o.expect(&format!("{}:large-aggregate-builds:{}:{}", p, g, sn), false, "Ok", verdict(&r));
+                return;
+            }
+        };
+        let aggb = Vec::<u8>::from(&agg)[1..].to_vec();
+        let rsum = rf::aggregate::<C::R>(&parts.iter().map(|x| <C::R as RefSuite>::sig_from(&pt(x.as_raw_value())).expect("honest signature decodes")).collect::<Vec<_>>());
+        o.expect(&format!("{}:large-aggregate-is-sum:{}:{}", p, g, sn), aggb == rf::enc(&rsum), "the reference point sum", "differs");
+        let v = guard(|| agg.verify(&list));
+        o.calls(2);
+        let acc = matches!(v, Ok(Ok(())));
+        let want = st.variant == 0;
+        o.outcome(if want { if acc { "large:accept" } else { "large:reject" } } else if acc { "large:incomplete-accept" } else { "large:incomplete-reject" });
+        o.expect(
+            &format!("{}:large-aggregate-verify:{}:{}:n{}:{}", p, g, sn, if st.n >= 256 { ">=256" } else if st.n >= 128 { ">=128" } else if st.n > 64 { ">64" } else { "<=64" }, if want { "honest" } else { "first-64-parts-missing" }),
+            acc == want && v.is_ok(),
+            if want { "accept" } else { "reject" },
+            verdict(&v),
+        );
+        // the reference takes the same decision on the same bytes (one size per band to bound the cost)
+        if [64usize, 128, 257].contains(&st.n) || st.n == 16 {
+            let pairs: Vec<(Vec<u8>, Vec<u8>)> = list.iter().map(|(k, m)| (Vec::<u8>::from(k), m.clone())).collect();
+            let r = rf::aggregate_verify::<C::R>(st.s, &pairs, &aggb);
+            o.expect(&format!("{}:large-aggregate-vs-reference:{}:{}", p, g, sn), r == want, if want { "accept" } else { "reject" }, if r { "accept" } else { "reject" });
+        }
+    }
+}
+
 pub fn models(prop: &'static str, tier: Tier, seed: u64) -> Vec<Box<dyn DynModel>> {
     let d = if tier.thorough() { 5 } else { 4 };
-    vec![bounded(MAggX::<Bls12381G1Impl>::new(prop, tier, seed), d), bounded(MAggX::<Bls12381G2Impl>::new(prop, tier, seed), d)]
+    let mut v = vec![bounded(MAggX::<Bls12381G1Impl>::new(prop, tier, seed), d), bounded(MAggX::<Bls12381G2Impl>::new(prop, tier, seed), d)];
+    if prop == "C03" {
+        v.push(bounded(MAggLarge::<Bls12381G1Impl>::new(prop, tier), 1));
+        v.push(bounded(MAggLarge::<Bls12381G2Impl>::new(prop, tier), 1));
+    }
+    v
 }
